@@ -134,8 +134,9 @@ def text_vals(rng, n, ndim, cols):
 
 def gen_dataset_ops(rng):
     """set-up operations (C09 protocol) of one dataset with all field types, levels, nesting and
-    reference topologies: other -> earlier field / later field / field in a collection / anonymous /
-    anonymous shared by two fields; ref_pos -> field / anonymous (whose other may be a field)"""
+    reference topologies: other / ref_pos -> earlier field / later field / field in a collection / field below the
+    write level / anonymous / anonymous shared by several fields (positions and deltas alike) / chains of those
+    (an anonymous object whose own other is a field, another anonymous object, a shared one), to depth 3"""
     ops = []
     nobj = [0]
 
@@ -152,10 +153,59 @@ def gen_dataset_ops(rng):
     for c in ("g1", "g3"):
         if rng.random() < 0.3:
             ops.append({"op": "addcoll", "d": 0, "path": c, "level": rng.choice([1, 2, 3])})
-    nfields = rng.randint(1, 8)
-    pos_objs = {"position": [], "posvel": []}      # (ref, is_field_path_or_None)
+    nfields = rng.randint(1, 7)
+    pos_objs = {"position": [], "posvel": []}      # objects that are (or will be) the array of a field
+    time_objs = []                                   # time fields: the attribute machinery is generic, a position's
+                                                     # `other` may be a time (the "position's time" of the statement)
+    anon_times = []
+    anon_objs = {"position": [], "posvel": []}     # anonymous attachments made so far (may be shared, may be chained)
     pending = []                                     # fields whose object is created now but added later (forward refs)
     shared_anon = {"position": None, "posvel": None}
+
+    def anon(kind, i, depth=0):
+        """a new anonymous object; sometimes its own `other` is a field or another anonymous object (a chain)"""
+        inner = None
+        r = rng.random()
+        if depth < 2 and r < 0.2 and pos_objs[kind]:
+            inner = rng.choice(pos_objs[kind])
+        elif depth < 2 and r < 0.35 and anon_objs[kind]:
+            inner = rng.choice(anon_objs[kind])
+        elif depth < 2 and r < 0.45:
+            inner = anon(kind, i, depth + 1)
+        o = obj(kind, 2, POSCOLS[kind], tags, 40 + i + 7 * depth, other=inner)
+        anon_objs[kind].append(o)
+        return o
+
+    def shared(kind):
+        if shared_anon[kind] is None:
+            shared_anon[kind] = anon(kind, 30)       # anonymous, shared by several fields
+        return shared_anon[kind]
+
+    if rng.random() < 0.08:
+        # a time field inside a collection that is read first, and positions (top level, same collection, later
+        # collection) whose attached time it is: the name `g1.x` gets into the read memo only by `TimeBase._read`
+        tv = obj("time", 1, 1, tags, 64)
+        ops.append(add_op(0, rng.choice(["g1.", "g1.g2.", "g3."]) + names[-1], "time", tv, unit=None, level=3))
+        time_objs.append(tv)
+        for j, w in enumerate(rng.sample(["", "g1.", "g3.", "g1.g2."], rng.choice([1, 2]))):
+            kind = rng.choice(["position", "posvel"])
+            pv = obj(kind, 2, POSCOLS[kind], tags, 65 + j, other=tv)
+            ops.append(add_op(0, w + names[-2 - j], kind, pv, unit=None, level=rng.choice([2, 3])))
+            pos_objs[kind].append(pv)
+    elif rng.random() < 0.08:
+        # a reference to a later field whose own attachment is an anonymous object embedded in a field in between:
+        # the read meets the embedded group after it has read it through the reference by name
+        kind = rng.choice(["position", "posvel"])
+        cols = POSCOLS[kind]
+        x = shared(kind)
+        vb = obj(kind, 2, cols, tags, 61, other=x)
+        va = obj(kind, 2, cols, tags, 62, other=vb)
+        vc = obj(kind, 2, cols, tags, 63, other=x)
+        hi = rng.choice([2, 3])
+        ops.append(add_op(0, rng.choice(["", "g1."]) + names[-1], kind, va, unit=None, level=hi))
+        ops.append(add_op(0, rng.choice(["", "g3."]) + names[-2], kind, vc, unit=None, level=hi))
+        pending.append(add_op(0, rng.choice(["", "g1.g2."]) + names[-3], kind, vb, unit=None, level=hi))
+        pos_objs[kind] += [va, vb, vc]
     for i in range(nfields):
         nm = names[i]
         where = rng.choice(["", "", "", "g1.", "g1.g2.", "g3."])
@@ -171,38 +221,63 @@ def gen_dataset_ops(rng):
         if kind in ("position", "posvel"):
             r = rng.random()
             cands = pos_objs[kind]
-            if cands and r < 0.45:
-                other = rng.choice(cands)
-            elif r < 0.6:
-                other = obj(kind, 2, cols, tags, 40 + i)                   # anonymous
-            elif r < 0.72:
-                if shared_anon[kind] is None:
-                    shared_anon[kind] = obj(kind, 2, cols, tags, 70)       # anonymous, shared by several fields
-                other = shared_anon[kind]
+            if r < 0.4 and cands:
+                other = rng.choice(cands)                                   # a field (earlier, or later if pending)
+            elif 0.4 <= r < 0.48 and time_objs:
+                other = rng.choice(time_objs)                               # a time field
+            elif 0.48 <= r < 0.51:
+                if not anon_times or rng.random() < 0.5:
+                    anon_times.append(obj("time", 1, 1, tags, 80 + i))
+                other = rng.choice(anon_times)                              # an anonymous time, maybe shared
+            elif r < 0.55:
+                other = anon(kind, i)                                       # anonymous (maybe the head of a chain)
+            elif r < 0.75:
+                other = shared(kind)                                        # anonymous, shared by several fields
         if kind in ("position_delta", "posvel_delta"):
             rk = "position" if kind == "position_delta" else "posvel"
             cands = pos_objs[rk]
-            if cands and rng.random() < 0.6:
+            r = rng.random()
+            if cands and r < 0.5:
                 ref_pos = rng.choice(cands)
+            elif r < 0.7:
+                ref_pos = shared(rk)
             else:
-                inner = rng.choice(cands) if cands and rng.random() < 0.4 else None
-                ref_pos = obj(rk, 2, POSCOLS[rk], tags, 50 + i, other=inner)
+                ref_pos = anon(rk, i)
         if kind == "text":
             o = {"op": "obj", "kind": "text", "ndim": ndim, "cols": cols, "vals": text_vals(rng, n, ndim, cols)}
             ops.append(o)
             nobj[0] += 1
             val = ("o", nobj[0] - 1)
+        elif kind in ("float", "sigma") and rng.random() < 0.3:
+            # zeros and signed zeros (an all-zero array, a negative zero among zeros / among other values), NaN
+            pool = rng.choice([[0.0, -0.0], [0.0], [-0.0], [-0.0, 0.0, 1.5], [0.0, -0.0, float("nan")], [-0.0, 5e-324]])
+            pick = lambda: rng.choice(pool)
+            if kind == "float":
+                vals = [pick() if ndim == 1 else [pick() for _ in range(cols)] for _ in range(n)]
+            elif ndim == 1:
+                vals = [[pick(), pick()] for _ in range(n)]
+            else:
+                vals = [[[pick() for _ in range(cols)], [pick() for _ in range(cols)]] for _ in range(n)]
+            ops.append({"op": "obj", "kind": kind, "ndim": ndim, "cols": cols, "vals": vals})
+            nobj[0] += 1
+            val = ("o", nobj[0] - 1)
         else:
             val = obj(kind, ndim, cols, tags, i + 1, other=other, ref_pos=ref_pos)
         a = add_op(0, where + nm, kind, val, unit=unit, level=level)
-        if kind in ("position", "posvel"):
-            pos_objs[kind].append(val)
+        if kind in ("position", "posvel", "time"):
+            (time_objs if kind == "time" else pos_objs[kind]).append(val)
             if rng.random() < 0.3:
                 pending.append(a)        # added at the end: earlier fields refer to a field that comes later
                 continue
         ops.append(a)
     rng.shuffle(pending)
     ops.extend(pending)
+    adds = [o for o in ops if o["op"] == "add" and o["kind"] != "text"]   # (add_text copies the array it is given)
+    if adds and rng.random() < 0.04:
+        # one array object held by two fields (outside the model's `Writable`: the file holds the array twice)
+        a0 = rng.choice(adds)
+        ops.append(add_op(0, rng.choice(["", "g1.", "g3."]) + names[7], a0["kind"], ["f", 0, a0["path"]], unit=a0.get("unit"),
+                          level=rng.choice([1, 2, 3])))
     for o in ops:
         o["setup"] = True
     return ops
@@ -241,6 +316,30 @@ def _valtok(x):
         return repr(x)
 
 
+def _register_time():
+    """`time` is an attachment of positions that users of the library register (midgard itself registers only `other`)"""
+    from midgard.data._position import PositionArray, PosVelArray, register_attribute
+
+    for c in (PositionArray, PosVelArray):
+        if "time" not in c._attributes():
+            register_attribute(c, "time")
+
+
+def bits_of(o) -> str:
+    """the bit patterns of the numbers of an array object (IEEE doubles: the sign of a zero and the payload of a NaN
+    are part of the value)"""
+    kind = describe(o)[0]
+    if kind in ("bool", "text"):
+        return ""
+    if kind in ("time", "time_delta"):
+        parts = [np.atleast_1d(np.asarray(o.jd1, dtype=float)), np.atleast_1d(np.asarray(o.jd2, dtype=float))]
+    elif kind == "sigma":
+        parts = [np.asarray(o, dtype=float), np.asarray(o.sigma, dtype=float)]
+    else:
+        parts = [np.asarray(o, dtype=float)]
+    return "/".join(np.ascontiguousarray(a, dtype=np.float64).tobytes().hex() for a in parts)
+
+
 def oracle_obj(o, idx, top=True, anon=None) -> str:
     """an attached object that is a field is named by the field; an anonymous one is numbered in order of
     first appearance, so that two fields sharing an anonymous object must share it after the round trip"""
@@ -258,9 +357,11 @@ def oracle_obj(o, idx, top=True, anon=None) -> str:
     kind, ndim, cols, rows = describe(o)
     oth = getattr(o, "other", None) if kind in ("position", "posvel") else None
     rp = getattr(o, "ref_pos", None) if kind in ("position_delta", "posvel_delta") else None
+    tm = getattr(o, "time", None) if kind in ("position", "posvel") else None
     so = oracle_obj(oth, idx, False, anon) if oth is not None else "-"
     sr = oracle_obj(rp, idx, False, anon) if rp is not None else "-"
-    return f"{label}{{{kind};{ndim};{cols};{extras(o)};{rows_token(rows)}|o={so}|r={sr}}}"
+    st = oracle_obj(tm, idx, False, anon) if tm is not None else "-"
+    return f"{label}{{{kind};{ndim};{cols};{extras(o)};{rows_token(rows)};bits={bits_of(o)}|o={so}|r={sr}|t={st}}}"
 
 
 def oracle_fields(fields, idx, level=0, anon=None) -> list:
@@ -285,7 +386,7 @@ def embedded_depth(ds, level) -> int:
 
     def depth(o):
         best = 0
-        for att in ("other", "ref_pos"):
+        for att in ("other", "ref_pos", "time"):
             a = getattr(o, att, None) if hasattr(o, "cls_name") else None
             if a is not None and id(a) not in written:
                 best = max(best, 1 + depth(a))
@@ -306,6 +407,57 @@ def restricted_index(ds, level):
                 out.append((pre + name, f))
         return out
     return rec(ds._fields, "")
+
+
+def topology(ds, level) -> set:
+    """which reference topologies this dataset has (from the real objects, independent of the model): for every
+    written field with an attachment, what the attached object is"""
+    idx = restricted_index(ds, level)
+    pos = {id(f.data): (i, p) for i, (p, f) in enumerate(idx)}
+    omitted = {id(f.data) for _, f in field_index(ds._fields)} - set(pos)
+    out = set()
+    seen_anon = {}
+
+    def atts_of(o):
+        kind = describe(o)[0]
+        if kind in ("position", "posvel"):
+            return [("other", getattr(o, "other", None)), ("time-attribute", getattr(o, "time", None))]
+        if kind in ("position_delta", "posvel_delta"):
+            return [("ref_pos", getattr(o, "ref_pos", None))]
+        return []
+
+    def walk(o, i, depth):
+        for name, a in atts_of(o):
+            walk1(name, a, i, depth)
+
+    def walk1(name, a, i, depth):
+        if a is None:
+            if name != "time-attribute":
+                out.add(f"{name}=None")
+            return
+        if describe(a)[0] == "time":
+            name += "(a time)"
+        pre = f"{name}->" if depth == 0 else f"chain(depth {min(depth + 1, 3)}):{name}->"
+        if id(a) in pos:
+            j, p = pos[id(a)]
+            out.add(pre + ("earlier" if j < i else "later" if j > i else "same") + (" nested field" if "." in p else " top-level field"))
+            return
+        if id(a) in omitted:
+            out.add(pre + "field below the write level (written as an anonymous object)")
+        if id(a) in seen_anon:
+            out.add(pre + "anonymous object shared with " + ("an earlier field" if seen_anon[id(a)] != i else "the same field"))
+            return
+        seen_anon[id(a)] = i
+        out.add(pre + "anonymous object")
+        walk(a, i, depth + 1)
+
+    for i, (p, f) in enumerate(idx):
+        if "." in p:
+            out.add("field in a collection")
+        walk(f.data, i, 0)
+    if len(idx) < len(field_index(ds._fields)):
+        out.add("some field omitted by the level")
+    return out
 
 
 LABELS = {"L": ["", "name", "fieldtype", "rows", "unit", "write_level", "multiplier", "contents"],
@@ -428,7 +580,7 @@ def reread_history(ctx: Ctx, ds, e, path, level, meta, case):
                     {**case, "history": "write,read,modify-result,read"})
 
 
-def one_dataset(ctx: Ctx, setup_ops, level: int, meta: dict, tmp: str, tag: str, mult: dict = None):
+def one_dataset(ctx: Ctx, setup_ops, level: int, meta: dict, tmp: str, tag: str, mult: dict = None, tattr: dict = None):
     from midgard.data import dataset
 
     rw = RealWorld()
@@ -449,7 +601,26 @@ def one_dataset(ctx: Ctx, setup_ops, level: int, meta: dict, tmp: str, tag: str,
             ds.field(path).multiplier = m
         except Exception:
             pass
-    case = {"ops": concrete, "level": level, "meta": {k: meta_tokens(v) for k, v in meta.items()}, "mult": mult}
+    # the `time` attached to a position (a registered attribute; not part of the model: oracle only).  The target is a
+    # time field of the dataset (["f", path]) or an anonymous time (["a", k]; the same k = the same object)
+    tattr = tattr or {}
+    if tattr:
+        from midgard.data.time import Time
+
+        anon_t = {}
+        for path, (how, what) in tattr.items():
+            try:
+                if how == "f":
+                    t = ds[what]
+                else:
+                    if what not in anon_t:
+                        anon_t[what] = Time(np.array([51544.0 + 7 * what + r for r in range(ds.num_obs)], dtype=float), scale="utc", fmt="mjd")
+                    t = anon_t[what]
+                ds[path].time = t
+                ctx.count("time-attribute:" + ("field" if how == "f" else "anonymous"))
+            except Exception:
+                ctx.count("time-attribute:not-set")
+    case = {"ops": concrete, "level": level, "meta": {k: meta_tokens(v) for k, v in meta.items()}, "mult": mult, "tattr": tattr}
     nontrivial = any(o["op"] == "add" for o in concrete)
     for o in concrete:
         if o["op"] == "addcoll":
@@ -480,9 +651,31 @@ def one_dataset(ctx: Ctx, setup_ops, level: int, meta: dict, tmp: str, tag: str,
     line = "c10 rt " + units_token() + " " + " | ".join(("q " + " ".join(op_tokens(o))) for o in concrete) + f" | write 0 {level}"
     model = ctx.driver.ask1(line)
     restr = ctx.driver.ask1(line.replace("c10 rt ", "c10 restrict ", 1))
+    info = ctx.driver.ask1(line.replace("c10 rt ", "c10 info ", 1))
     ctx.traces += 1
     if model != impl:
         ctx.disagree("write/read of a dataset", case, model, impl)
+    # the hypothesis of the theorems (Props.C10.read_write / refs_restored): evaluated by the model on this dataset;
+    # the branches of the model's write / read this dataset takes (coverage of the generator)
+    if info.startswith("W:"):
+        w, _, tags = info[2:].partition("|")
+        ctx.count("Writable=" + w)
+        for t in filter(None, tags.split(",")):
+            ctx.count("branch " + t)
+        if "twin-mismatch" in tags:
+            ctx.disagree("instrumented read (branch counting) vs model read", case, info, model)
+        if w == "T" and (not model.startswith("ok:") or model != restr):
+            # an instance of the theorem: Writable => read (write d l) renders exactly like restrict d l
+            ctx.disagree("instance of theorem read_write: Writable, but model rt != model restrict", case, model, restr)
+        if w == "F":
+            ctx.count("Writable=F & model " + ("ok" if model.startswith("ok:") else model))
+    elif info != "?":
+        ctx.disagree("c10 info", case, info, "W:…")
+    for t in topology(ds, level):
+        ctx.count("topology " + t)
+    _ids = [id(f.data) for _, f in restricted_index(ds, level)]
+    if len(set(_ids)) < len(_ids):
+        ctx.count("topology one array object held by two written fields (not Writable)")
     # the model's own statement of the property: read(write d) renders like restrict d  (identities modulo
     # the numbering are compared by the oracle below; here only the shape of the claim is counted)
     ctx.count("model-ok" if model.startswith("ok:") else "model-" + model)
@@ -501,7 +694,10 @@ def one_dataset(ctx: Ctx, setup_ops, level: int, meta: dict, tmp: str, tag: str,
     d = first_diff(got, want)
     if d:
         key = "roundtrip:" + d[0]
-        if d[0] == "attachment" and embedded_depth(ds, level) >= 2:
+        ids = [id(f.data) for _, f in idx_w]
+        if d[0] == "attachment" and len(set(ids)) < len(ids):
+            key += "[two-fields-one-array]"   # an array object is the array of two written fields at once
+        elif d[0] == "attachment" and embedded_depth(ds, level) >= 2:
             key += "[nested-embedded]"   # an anonymous attachment of an anonymous attachment
         ctx.violate(key, "read back differs: " + d[1], case)
         return
@@ -609,14 +805,22 @@ def codec_case(ctx: Ctx, m):
 
 def run(ctx: Ctx):
     ctx.proof = common.prove("C10")
+    _register_time()
     rng = ctx.rng
     ctx.rule = ("datasets of 0..6 rows built from the ten array field types (1-/2-D float/bool/text/sigma, text from a "
-                "list of tricky printable strings: nan, inf, quotes, leading blanks, Python literals), nested collections, "
-                "three write levels per field and per write, reference topologies (other -> earlier / later field, field in "
-                "a collection, anonymous, anonymous shared; ref_pos -> field / anonymous whose other is a field), random meta "
-                "trees to depth 3 over numbers, NaN, +-inf, tricky strings, booleans, None; written with the real h5py into a "
-                "temporary directory and read back; non-trivial = at least one field; distinct by canonical set-up operations, "
-                "level and meta; the codec is additionally exercised value by value")
+                "list of tricky printable strings: nan, inf, quotes, leading blanks, Python literals; float/sigma values incl. "
+                "all-zero arrays, negative zeros among zeros and among other values, NaN, the smallest subnormal), nested "
+                "collections, three write levels per field and per write, reference topologies (other / ref_pos -> earlier / "
+                "later field, field in a collection, field below the write level, anonymous, anonymous shared by several "
+                "fields, chains of those to depth 3; other -> time field / anonymous time; the user-registered `time` "
+                "attribute of positions -> time field / anonymous / shared (oracle only); dedicated templates for 'time in a "
+                "collection read first' and 'embedded object read early through a reference by name'; 4%: one array object "
+                "held by two fields), random meta trees to depth 3 over numbers, NaN, +-inf, tricky strings, booleans, None; "
+                "written with the real h5py into a temporary directory and read back; per dataset the model answers rt, "
+                "restrict and info (Writable, branches of its write/read taken: 'branch …' counts; 'topology …' counts are "
+                "computed from the real objects); Writable => model rt == model restrict is checked as an instance of "
+                "theorem read_write; non-trivial = at least one field; distinct by canonical set-up operations, level and "
+                "meta; the codec is additionally exercised value by value")
     ctx.trusted += ["h5py / HDF5 store and return what they are given (modelled as an abstract tree of groups)",
                     "CPython repr / ast.literal_eval are inverse on literals (the codec model works on the parsed tree)",
                     "text is stored as fixed-width bytes: non-ASCII text and trailing NULs are outside 'can be written'"]
@@ -630,18 +834,23 @@ def run(ctx: Ctx):
                 if "codec" in c:
                     codec_case(ctx, tokens_meta(c["codec"]))
                 else:
-                    one_dataset(ctx, c["ops"], c["level"], {k: tokens_meta(v) for k, v in c.get("meta", {}).items()}, tmp, "corpus", c.get("mult"))
+                    one_dataset(ctx, c["ops"], c["level"], {k: tokens_meta(v) for k, v in c.get("meta", {}).items()}, tmp, "corpus", c.get("mult"), c.get("tattr"))
         for t in TRICKY:
             codec_case(ctx, t)
             codec_case(ctx, [t, {"k": t}])
         for _ in range(ctx.budget(3000, 100000)):
             codec_case(ctx, gen_meta(rng))
-        for _ in range(ctx.budget(1500, 30000)):
+        for _ in range(ctx.budget(1300, 20000)):
             meta = {f"k{i}": gen_meta(rng) for i in range(rng.choice([0, 1, 2, 4]))}
             meta = {k: v for k, v in meta.items() if v is not None}
             ops = gen_dataset_ops(rng)
             mult = {o["path"]: rng.choice([2, -1, 3]) for o in ops if o["op"] == "add" and rng.random() < 0.15}
-            one_dataset(ctx, ops, rng.choice([1, 2, 3]), meta, tmp, "random", mult)
+            times = [o["path"] for o in ops if o["op"] == "add" and o["kind"] == "time"]
+            tattr = {}
+            for o in ops:
+                if o["op"] == "add" and o["kind"] in ("position", "posvel") and rng.random() < 0.25:
+                    tattr[o["path"]] = ["f", rng.choice(times)] if times and rng.random() < 0.65 else ["a", rng.choice([0, 0, 1])]
+            one_dataset(ctx, ops, rng.choice([1, 2, 3]), meta, tmp, "random", mult, tattr)
     finally:
         shutil.rmtree(tmp, ignore_errors=True)
 
@@ -696,12 +905,13 @@ def replay(payload):
             return "?"
     ctx._driver = _D()
     c = payload.get("replay", payload)
+    _register_time()
     tmp = tempfile.mkdtemp(prefix="verif-c10-")
     try:
         if "codec" in c:
             codec_case(ctx, tokens_meta(c["codec"]))
         else:
-            one_dataset(ctx, c["ops"], c["level"], {k: tokens_meta(v) for k, v in c.get("meta", {}).items()}, tmp, "replay", c.get("mult"))
+            one_dataset(ctx, c["ops"], c["level"], {k: tokens_meta(v) for k, v in c.get("meta", {}).items()}, tmp, "replay", c.get("mult"), c.get("tattr"))
     finally:
         shutil.rmtree(tmp, ignore_errors=True)
     for v in ctx.violations:
